@@ -1024,6 +1024,44 @@ func (P *Prover) factsAt(b *ssa.BasicBlock) []Poly {
 	for x := b; x != nil; x = x.Idom() {
 		if len(x.Preds) == 1 {
 			fs = append(fs, P.edgeFacts(x.Preds[0], x)...)
+			continue
+		}
+		// a loop header entered straight from a branch (an outer loop with an empty body before the
+		// inner one): what the entry edge establishes about values the loop does not define holds on
+		// the back edges too, hence everywhere in the loop
+		var entry *ssa.BasicBlock
+		n := 0
+		for _, p := range x.Preds {
+			if !x.Dominates(p) {
+				entry = p
+				n++
+			}
+		}
+		if n != 1 || len(x.Preds) < 2 {
+			continue
+		}
+		for _, f := range P.edgeFacts(entry, x) {
+			inv := true
+			P.atomsOf(f, func(a *Atom) {
+				var chk func(a *Atom)
+				chk = func(a *Atom) {
+					if in, ok := a.val.(ssa.Instruction); ok && a.val != nil {
+						if x.Dominates(in.Block()) {
+							inv = false
+						}
+						if _, isLoad := a.val.(*ssa.UnOp); isLoad {
+							inv = false // memory may change inside the loop
+						}
+					}
+					if a.kind == aDiv || a.kind == aRem || a.kind == aStr || a.kind == aTab {
+						P.atomsOf(a.inner, chk)
+					}
+				}
+				chk(a)
+			})
+			if inv {
+				fs = append(fs, f)
+			}
 		}
 	}
 	return fs
